@@ -3797,6 +3797,13 @@ DFSDIgetslice(const char *filename, int32 winst[], int32 windims[], void *data, 
     }
     leastsig = (int32)rank - 1; /* which is least sig dim */
 
+    /* a data set described without a data element has no values: a zero tag/ref would be taken as
+       wildcards and match an unrelated element of the file */
+    if (Readsdg.data.tag == DFTAG_WILDCARD || Readsdg.data.ref == DFREF_WILDCARD) {
+        free(wstart);
+        HCLOSE_GOTO_ERROR(file_id, DFE_NOVALS, FAIL);
+    }
+
     /* position at start of data set */
     aid = Hstartread(file_id, Readsdg.data.tag, Readsdg.data.ref);
     if (aid == FAIL) {
